@@ -296,7 +296,7 @@ pub fn run(args: &Args) {
             let is_tx = match &plan { Some(p) => p.1, None => rng.chance(1, 4) };
             let mut qs: Vec<MQ> = vec![];
             {
-                let mut g = Gen { rng: &mut rng, p: &profile, keys_pool: std::mem::take(&mut keys_pool), allow_dup: false };
+                let mut g = Gen { rng: &mut rng, p: &profile, keys_pool: std::mem::take(&mut keys_pool), allow_dup: false, in_tx: is_tx };
                 let want = if is_tx { g.rng.range(2, 4) } else { 1 };
                 let mut tries = 0;
                 while (qs.len() as u64) < want && tries < 30 {
